@@ -65,7 +65,7 @@ class Gen:
         if (self.multiline and self.l.random() < 0.3) or self.pending:
             return self.nl()
         a = after.rstrip()
-        if a.endswith("&") and not a.endswith("&&"):
+        if a.endswith("&") and not a.endswith(("&&", "\\&")):
             return " "
         if before_reserved and a.endswith(self.CLOSERS) and not a.endswith(("))", ";;")) and self.l.random() < 0.5:
             return " "      # a reserved word may follow a compound command's closing token directly
